@@ -14,3 +14,4 @@ from . import compute  # noqa
 from . import overlap  # noqa
 from . import multirun  # noqa
 from . import postoffice  # noqa
+from . import copying  # noqa
